@@ -16,7 +16,7 @@ type c15 struct{ base }
 
 func init() {
 	runner.Register(&c15{base{id: "C15", level: "fault_enumeration",
-		rule: "exhaustive: every sequence of <=3 toggles over {EmulateFailure(none), EmulateFailure(internal_server), EmulateFailure(deprecated), ActiveForceFailure, DeactiveForceFailure} x every data-operation kind {Put, Update, Delete, Get, Query, Scan, BatchWrite, BatchGet, TransactWrite} x both adapters on a populated table: while a condition is active the call must return exactly the configured error (InternalServerError resp. ErrForcedFailure) and, after deactivation, the complete observation must equal the one taken before (BatchWrite under internal_server: every request is applied or listed in UnprocessedItems, never both, never neither); batch compositions 1/2/25 requests over 1-2 tables with puts and deletes; seeded histories of 60 ops mixing toggles with all operation kinds, checked step by step against the model that ignores failing calls. non-trivial = a failure condition was active for at least one data call and was later deactivated; distinct by (adapter, toggle sequence, op kind). Pagers: the SDK's own paginators (v2 NewQueryPaginator / NewScanPaginator; v1 QueryPages / ScanPages, 'not implemented' when they land on the nil embedded interface) with the failure switched on after page 1 / 2 of a 3-page walk: no further page is delivered, the walk ends with the configured error, and completes once the failure is off.",
+		rule: "exhaustive: every sequence of <=3 toggles over {EmulateFailure(none), EmulateFailure(internal_server), EmulateFailure(deprecated), ActiveForceFailure, DeactiveForceFailure} x every data-operation kind {Put, Update, Delete, Get, Query, Scan, BatchWrite, BatchGet, TransactWrite} x both adapters on a populated table: while a condition is active the call must return exactly the configured error (InternalServerError resp. ErrForcedFailure) and, after deactivation, the complete observation must equal the one taken before (BatchWrite under internal_server: every request is applied or listed in UnprocessedItems, never both, never neither); batch compositions 1/2/25 requests over 1-2 tables with puts and deletes; seeded histories of 60 ops mixing toggles with all operation kinds, checked step by step against the model that ignores failing calls. non-trivial = a failure condition was active for at least one data call and was later deactivated; distinct by (adapter, toggle sequence, op kind). Pagers: the SDK's own paginators (v2 NewQueryPaginator / NewScanPaginator; v1 QueryPages / ScanPages, 'not implemented' when they land on the nil embedded interface) with the failure switched on after page 1 / 2 of a 3-page walk: no further page is delivered, the walk ends with the configured error, and completes once the failure is off. Replayed ClientRequestTokens of TransactWriteItems (same token with same / other actions, fresh token, none) under the three failure modes fail like any call.",
 		assumptions: commonAssumptions}})
 }
 
